@@ -81,7 +81,8 @@ def _helper_read_frame(lit: LineIterator) -> tuple:
     title = line.split(",")[0] if "t=" in line else line[:-1]
     time = 0.0
     if "t=" in line:
-        time = float(line.split("t=")[1]) * picosecond
+        # The time may be followed by other fields, e.g. "step= 100".
+        time = float(line.split("t=")[1].split()[0]) * picosecond
     # Read the second line for number of atoms.
     natoms = int(next(lit))
     # Read the atom lines
@@ -95,13 +96,19 @@ def _helper_read_frame(lit: LineIterator) -> tuple:
         resnums.append(int(line[:5]))
         resnames.append(line[5:10].split()[-1])
         attypes.append(line[10:15].split()[-1])
-        words = line[22:].split()
+        # Positions and (optional) velocities are fixed-width fields starting at column 21.
+        # Their width follows from the distance between two decimal points.
+        fields = line[20:].rstrip("\n")
+        first = fields.index(".")
+        width = fields.index(".", first + 1) - first
+        words = [fields[j : j + width] for j in range(0, len(fields.rstrip()), width)]
         pos[i, 0] = float(words[0])
         pos[i, 1] = float(words[1])
         pos[i, 2] = float(words[2])
-        vel[i, 0] = float(words[3])
-        vel[i, 1] = float(words[4])
-        vel[i, 2] = float(words[5])
+        if len(words) >= 6:
+            vel[i, 0] = float(words[3])
+            vel[i, 1] = float(words[4])
+            vel[i, 2] = float(words[5])
     pos *= nanometer  # atom coordinates are in nanometers
     vel *= nanometer / picosecond
     # Read the cell line
